@@ -4,6 +4,7 @@
 import ErgoProofs.Lemmas.ReachInv
 import ErgoProofs.Lemmas.StorageThm
 import ErgoProofs.Lemmas.CodecInst
+import ErgoProofs.Lemmas.HalfClaim
 namespace Ergo
 
 /-- for every history the CLI can produce: replaying the compacted log succeeds, every live item's observable data
@@ -83,5 +84,13 @@ theorem C05_time_stamps_survive (t : Time) (h : t < Time.maxT) : Time.parse (Tim
 theorem C05_state_and_claimant_survive_for_every_task (t : Task) :
     (rebuild t).st = t.st ∧ (rebuild t).claimedBy = t.claimedBy := by
   rw [rebuild_eq]; exact ⟨rfl, rfl⟩
+
+/-- logs whose tail was torn by a crash *inside a claim's write*: the claim line is whole, its state line is lost.  The log — a CLI-reachable one
+    plus that one claim event, for any id, agent and (non-zero) stamp — is not CLI-reachable itself (a todo task with a claimant), and compaction
+    still changes nothing a reader can see: replaying the compacted log gives the same observables for every item, that task's claimant and claim
+    time included.  (This is the case the pinned tree got wrong: §6, `93d8d19`.) -/
+theorem C05_half_written_claim_preserved (log : List Event) (h : ReachOK log) (id agent : Id) (ts : Time) (hts : ts ≠ 0) :
+    ∃ g g', replay (log ++ [Event.claim id agent (some ts)]) = .ok g ∧ replay (compactEvents g) = .ok g' ∧ ObsEq g' g ∧ g'.tombs = [] :=
+  compact_half_claim log h id agent ts hts
 
 end Ergo
